@@ -24,6 +24,11 @@ Clauses (one obligation each)
     dimensionless-outputs-unchanged      posterior grid probabilities (inside_outside); mutation -> node map and
                                          the edge table (exact equality)
     historical-samples-all-outputs-scale all of the above for inputs with non-zero sample ages (input times * c)
+    known-rescaling-discontinuous-at-tied-node-times
+                                         all of the above, for exactly those variational runs WITH time rescaling in
+                                         which two non-fixed nodes have posterior means equal to within 1e-9 relative
+                                         (in either run).  There the real code violates the property: see "Known
+                                         defect" below.  Every other case stays under the strict generic clauses.
 
 Oracle: none needed beyond the statement -- the expected value of run B is c**k times the observed value of
 run A (k = 1 for times/means, 2 for variances, 0 for probabilities).  No tsdate code is used to form it.
@@ -55,6 +60,16 @@ Tolerances (the statement says "up to floating-point tolerance")
     variances        : additionally an absolute allowance of 1e-12 * (scaled mean)**2, because a grid variance is
                        formed as sum((mean - t)**2 * p), whose rounding error is relative to mean**2, not to itself.
     exact (==)       : mutation -> node map, edge table.
+
+Known defect isolated in the known- clause (found by this check on the unchanged /repo)
+    rescaling.mutational_timescale computes each interval's factor as z * sum(counts[i:j]) / sum(offset[i:j]) over
+    the epochs between *distinct* node times, unweighted by epoch duration.  If two nodes carry identical data
+    (e.g. two cherries with the same mutation count and span) their EP means agree up to rounding; whether they
+    are bit-equal or one ulp apart decides whether a zero-length epoch exists, and that epoch enters the two sums
+    with full weight.  Scaling by a non-power-of-two c changes the rounding, so the outputs jump by O(1-10 %)
+    (sim(seed=124474,n=6,rec=6e-06), c=1e-3: node times differ by 10.2 %; direct call with nodes_time
+    [0,0,0,0,1,1+d,4]: d=0 -> 10.444, d=2.2e-16 -> 10.222).  Runs without rescaling, and the same inputs with
+    c a power of two, satisfy the property.
 
 NOT covered: inputs beyond ~20 nodes; default (None) min_branch_length / eps (the statement scales explicit
 values); population-size histories with more than two epochs; approximate (cached) priors; the recombination
@@ -288,11 +303,29 @@ CLAUSE = {"node": "node-times-scale-by-c", "mut": "mutation-times-scale-by-c",
           "prob": "dimensionless-outputs-unchanged", "exact": "dimensionless-outputs-unchanged"}
 
 
-def check_pair(rep, key, desc, res_a, res_b, c, rtol, historical):
+KNOWN_TIES = "known-rescaling-discontinuous-at-tied-node-times"
+
+
+def near_tied_free_nodes(obs, rel=1e-9):
+    """True when two non-fixed nodes have variational posterior means equal up to `rel` (see module docstring:
+    the one condition under which rescaling.mutational_timescale is discontinuous)."""
+    d = {n: arr for n, arr, _, _ in obs}
+    if "fit_node_mean" not in d:
+        return False
+    free = d["fit_node_variance"] > 0
+    t = np.sort(d["fit_node_mean"][free])
+    return bool(t.size > 1 and np.any(np.diff(t) <= rel * t[1:]))
+
+
+def check_pair(rep, key, desc, res_a, res_b, c, rtol, historical, rescaled=False):
     ka, a = res_a
     kb, b = res_b
     same = (ka == kb) and (ka == "ok" or a.split(":")[0] == b.split(":")[0])
-    rep.case("historical-samples-all-outputs-scale" if historical else "same-outcome", same, key=key, input=desc,
+    known = None
+    if rescaled and ((ka == "ok" and near_tied_free_nodes(a)) or (kb == "ok" and near_tied_free_nodes(b))):
+        known = KNOWN_TIES
+    rep.case(known or ("historical-samples-all-outputs-scale" if historical else "same-outcome"), same, key=key,
+             input=desc,
              observed={"base": ka if ka == "ok" else a, "scaled": kb if kb == "ok" else b},
              expected="both succeed or both raise the same exception type", nontrivial=(ka == "ok"))
     if not same or ka != "ok":
@@ -300,7 +333,7 @@ def check_pair(rep, key, desc, res_a, res_b, c, rtol, historical):
     da = {n: (arr, p, g) for n, arr, p, g in a}
     db = {n: (arr, p, g) for n, arr, p, g in b}
     if set(da) != set(db):
-        rep.case("same-outcome", False, key=key, input=desc, observed=sorted(db), expected=sorted(da))
+        rep.case(known or "same-outcome", False, key=key, input=desc, observed=sorted(db), expected=sorted(da))
         return
     mean_of = {"node_metadata_vr": "node_metadata_mn", "mutation_metadata_vr": "mutation_metadata_mn",
                "fit_node_variance": "fit_node_mean", "fit_mutation_variance": "fit_mutation_mean"}
@@ -309,11 +342,13 @@ def check_pair(rep, key, desc, res_a, res_b, c, rtol, historical):
         want = arr * (c ** p) if p else arr
         got = db[n][0]
         if g == "exact":
+            if n == "edges":  # row order follows the output node times; compare as a set of rows
+                got, want = got[np.lexsort(got.T[::-1])], want[np.lexsort(want.T[::-1])]
             ok, err = bool(np.array_equal(got, want)), None
         else:
             ms = da[mean_of[n]][0] * c if n in mean_of else None
             ok, err = compare(n, got, want, rtol, ms)
-        cl = "historical-samples-all-outputs-scale" if historical else CLAUSE[g]
+        cl = known or ("historical-samples-all-outputs-scale" if historical else CLAUSE[g])
         st = per_clause.setdefault(cl, {"ok": True, "worst": {}, "bad": {}})
         st["worst"][n] = err
         if not ok:
@@ -363,7 +398,9 @@ def run(req, rep):
                 desc = {"input": item["name"], "config": lab, "method": method, "c": c, "mutation_rate": mu,
                         "kwargs": bounded_api.jsonable(kw), "prior_spec": bounded_api.jsonable(prior_spec),
                         "ts": bounded_api.ts_to_json(ts)}
-                check_pair(rep, key, desc, base, scaled, c, rtol, historical)
+                rescaled = (method == "variational_gamma" and kw.get("rescaling_iterations", 5) > 0
+                            and kw.get("rescaling_intervals", 1000) > 0)
+                check_pair(rep, key, desc, base, scaled, c, rtol, historical, rescaled)
 
 
 if __name__ == "__main__":
